@@ -1,6 +1,14 @@
 HOOK_COMMITS = ["91ffc11"]
 NOT_APPLICABLE = {}
 ENTRIES = {
+    "C19": {
+        "text": "Theorems for every duration, inner completion time and poll schedule: the model of TimeoutFuture::poll yields the "
+                "inner result unchanged iff the inner future resolved no later than the deadline (inner wins a tie), else the timeout "
+                "error exactly at the deadline, never earlier; tied to the public service::Timeout by hand-polled runs under the "
+                "paused clock. Clean-up after expiry is dropping the inner future, i.e. the pool model's cancel.",
+        "note": "Trusted: Lean kernel; tokio Sleep semantics; the pooled clean-up part rests on the pool model (C03/C14) and its stream.",
+        "design_ref": "DESIGN.md §5 C19",
+    },
     "C10": {
         "text": "Theorems about the event-driven model of EyeballSet::finish for every attempt list and configuration (result "
                 "correctness: first success wins, failure only after all candidates failed with the first error, timeout only at the "
